@@ -7,6 +7,7 @@ import PCV.Model.Wire
 import PCV.Model.DrvUtil
 import PCV.Model.Hyrax
 import PCV.Model.HyraxTranscript
+import PCV.Model.HyraxSetup
 namespace PCV
 namespace DrvHyrax
 open Driver Hyrax
@@ -158,6 +159,11 @@ def handle (p : Nat) (r : Req) : Option (Except String String) :=
     let πs ← getProofs (p := p) r
     let cs ← asFes (p := p) (← need r "cs")
     pure <| exceptReply (check ks hh coms point values πs cs) fun b => [("b", vBool b)]
+  | "hyrax.setup" =>
+    -- `nv=none|some(n)`: which hash counter every key element comes from (`gen` = identity on ℕ)
+    let nv ← asOptNat (← need r "nv")
+    pure <| exceptReply (Hyrax.setup (F := Nat) id nv) fun pp =>
+      [("n", .n pp.comKey.length), ("counters", vNats pp.comKey), ("hcounter", .n pp.h)]
   | "hyrax.transcript" =>
     let side ← asNat (← need r "side")
     let ks ← asFes (p := p) (← need r "ks")
